@@ -58,7 +58,17 @@ def random_hist(g, ndim):
 def fill_random(g, h, edges, n=None):
     n = int(g.integers(5, 200)) if n is None else n
     data = [g.uniform(e[0] - 0.5, e[-1] + 0.5, n) for e in edges]
-    mode = int(g.integers(0, 4))
+    mode = int(g.integers(0, 6))
+    if mode == 4:
+        # weights that average to one in every bin: the same points twice, with weights 0.5 and 1.5 (content = entries, errors differ)
+        h.fill(*data, weights=0.5)
+        h.fill(*data, weights=1.5)
+        return 'unit-mean weights'
+    if mode == 5:
+        # contents set programmatically with explicit (non-Poisson) errors: content = entries
+        counts = g.integers(0, 50, h.shape).astype(float)
+        h.set_content(counts, counts.copy(), errors=g.uniform(0.1, 3., h.shape) * (counts > 0))
+        return 'set_content with errors'
     if mode == 0:
         h.fill(*data)
         return 'unweighted'
@@ -123,8 +133,14 @@ def hist_case(chk, g, d, drv, jobs, ndim, idx):
     path = os.path.join(d, 'h%d_%d.fits' % (ndim, idx))
     h.save(path)
     with fits.open(path) as f:
-        raw = {name: numpy.array(f[name].data, dtype=float) for name in ('PRIMARY', 'ENTRIES', 'SUMW2')}
-        raw_edges = [numpy.array(f['BINNING%d' % i].data['EDGES']) for i in range(ndim)]
+        missing = [name for name in ['PRIMARY', 'ENTRIES', 'SUMW2'] + ['BINNING%d' % i for i in range(ndim)] if name not in f]
+        if missing:
+            # the layout on disk is not the one of the model (`HistIO.save`: content, entries, sumw2 images and one table of edges per axis)
+            chk.fail('correspondence', '%d-d histogram %s (%s): save() wrote no %s extension' % (ndim, sizes, modes, ', '.join(missing)), rep)
+            raw = None
+        else:
+            raw = {name: numpy.array(f[name].data, dtype=float) for name in ('PRIMARY', 'ENTRIES', 'SUMW2')}
+            raw_edges = [numpy.array(f['BINNING%d' % i].data['EDGES']) for i in range(ndim)]
     try:
         k = cls.from_file(path)
     except Exception as e:
@@ -145,6 +161,14 @@ def hist_case(chk, g, d, drv, jobs, ndim, idx):
         if dif:
             chk.fail('impl', '%d-d histogram %s: cycle %d of save/from_file changed it: %s' % (ndim, sizes, j + 2, dif), rep)
             break
+    # slices of a 2-d histogram are histograms of their own (content and entries of the slice, errors as set_content leaves them): same cycle
+    if ndim == 2 and hasattr(h, 'hslice'):
+        for name, sl in (('hslice', h.hslice(int(g.integers(0, h.shape[1])))), ('vslice', h.vslice(int(g.integers(0, h.shape[0]))))):
+            p3 = os.path.join(d, 'h%d_%d_%s.fits' % (ndim, idx, name))
+            sl.save(p3)
+            dif = hist_diff(snapshot(sl), snapshot(type(sl).from_file(p3)), exact_sumw2=False, f32_binning=True)
+            if dif:
+                chk.fail('impl', '%s of a 2-d histogram %s (%s) saved and loaded: %s' % (name, sizes, modes, dif), rep)
     # a loaded histogram keeps working: same fill lands in the same bins
     more = [g.uniform(e[0], e[-1], 40) for e in edges]
     a, b = h.copy(), k.copy()
@@ -153,6 +177,8 @@ def hist_case(chk, g, d, drv, jobs, ndim, idx):
     edge_safe = all(numpy.abs(m[:, None] - e[None, :]).min() > 1e-4 for m, e in zip(more, edges))
     if edge_safe and not same_array(a.entries, b.entries):
         chk.fail('impl', '%d-d histogram %s: the loaded histogram bins new data differently from the original' % (ndim, sizes), rep)
+    if raw is None:
+        return
     # correspondence with the model: image layout, sqrt/square of sumw2, float32 edges
     for name, arr in (('PRIMARY', h.content), ('ENTRIES', h.entries), ('SUMW2', h.sumw2)):
         bb = bits(arr)
